@@ -537,7 +537,7 @@ def replay_of(c, q, im, model, spec, tags):
             "how": "write the files into a directory, then: printf 'O <dir>\\nG %s %d %d %d\\n' | harness/C01/rd (values are hex bit patterns of the return type)" % (q[0], q[1], q[2], q[3])}
 
 
-def judge(chk, cases, stats):
+def judge(chk, cases, stats, exe=None):
     """three-way comparison; returns number of violations recorded"""
     seen_keys = {}
     for c in cases:
@@ -606,8 +606,19 @@ def judge(chk, cases, stats):
             # refinement: the failure must be the one the model of the code predicts.  Not applied where the
             # outcome depends on memory the model does not carry (an unwritten second-input buffer:
             # whatever malloc returned steers MPLEX/WINDOW decisions)
-            if not e_model and "empty2" not in tags:
-                key += "/unpredicted"
+            # nor where the model's own prediction contains undefined values ('?'): the outcome then depends on
+            # memory content or on C undefined behaviour
+            # nor for a multi-rate MPLEX: its wrong last sample is cached and seeds the next read (state)
+            if not e_model and "empty2" not in tags and "mplexrate" not in tags and "?" not in model["vals"]:
+                # the MPLEX last-sample cache carries a defect's wrong value from one call into the next:
+                # decide on the call alone, on a fresh handle
+                alone = None
+                if exe is not None and os.path.isdir(getattr(c, "dir", "")):
+                    rc, out = run_stream([exe], "O %s\nG %s %d %d %d\nC\n" % (c.dir, q[0], q[1], q[2], q[3]), env=HENV)
+                    ls = [l for l in out.split("\n") if l.startswith("G ")]
+                    alone = parse_impl(ls[0]) if ls else None
+                if alone is None or not same(alone, model, n, True):
+                    key += "/unpredicted"
             stats["bykey"][key] = stats["bykey"].get(key, 0) + 1
             if key not in seen_keys:
                 seen_keys[key] = 1
@@ -715,7 +726,7 @@ def main():
         chk.violation("model-build", "Coq model does not compile: " + log[-1500:], {"kind": "model-build", "log": log[-4000:]}, found=False)
         return chk.finish()
     root = vlib.scratch("C01-run-")
-    ncases, nq = (700, 14) if not chk.thorough else (12000, 24)
+    ncases, nq = (2400, 14) if not chk.thorough else (16000, 24)
     stats = {"queries": 0, "covered": 0, "covered_nonempty": 0, "uncovered": 0, "uncovered_ok": 0, "unjudged": 0, "wild": 0,
              "sigs": set(), "bykey": {}}
     batches = 1 if not chk.thorough else 8
@@ -731,7 +742,7 @@ def main():
         problems = run_cases(cases, exe, drv, broot, jobs=vlib.NPROC)
         for p in problems[:3]:
             chk.violation("harness", p, {"kind": "harness", "detail": p}, found=False)
-        judge(chk, cases, stats)
+        judge(chk, cases, stats, exe)
         for c in cases:
             if c.idx in WITNESS_KEYS:
                 for (q, im, model, spec, tags) in getattr(c, "res", []):
